@@ -6,5 +6,5 @@ CONSTANTS
   PPagesMC <- PP4
   MaxReq = 2
   ReplySlot = "hold"
-INVARIANTS ContentsPreserved TableMapsToDestination NoAlias Allocated OthersUnchanged CopyOnlyWhenQuiet OnePageAtATime HandshakeOrder ReplyOnce ReplyNotDropped AllServed
+INVARIANTS NoReplyDropped ContentsPreserved TableMapsToDestination NoAlias Allocated OthersUnchanged CopyOnlyWhenQuiet OnePageAtATime HandshakeOrder ReplyOnce ReplyNotDropped AllServed
 CHECK_DEADLOCK FALSE
